@@ -375,9 +375,11 @@ func (c *camera) play(conn net.Conn, br *bufio.Reader, closeConn func(bool), dra
 		}
 		return
 	}
-	select {
-	case <-c.gate:
-	case <-time.After(20 * time.Second):
+	if os.Getenv("C20_UNGATED") == "" { // (experiments only: let the play events run without waiting for the harness)
+		select {
+		case <-c.gate:
+		case <-time.After(20 * time.Second):
+		}
 	}
 	for {
 		k := c.next()
